@@ -33,6 +33,9 @@ def _expand(payload, sub):
     npre = len(sc['steps'])
     # suffix: first a few steps biased to discarding, then anything
     PL.gen_pipeline(rng, None, payload['ns'], tags=DISCARD_TAGS if rng.random() < 0.7 else None, exclude=OBS_KINDS + ('user',), stats=stats, sc=sc, g=g)
+    if rng.random() < payload.get('truncate_p', 0.05):
+        # known finding C05-consumer-stops-early: a downstream user step that stops pulling a resource early
+        sc['steps'].insert(rng.randrange(npre, len(sc['steps']) + 1), ST.gen_truncate(rng, None, g))
     dpre = ST.D(PL.describe({'tables': sc['tables'], 'steps': sc['steps'][:npre], 'source_kinds': sc.get('source_kinds')}, {'calls': {}}))
     if payload['observer'] == 'printer':
         sel, names = ST.selector(rng, dpre) if rng.random() < 0.6 else (None, dpre.names())
@@ -149,7 +152,7 @@ class C05(Prop):
     ASSUMPTIONS = ['schemas are compared as (field names, types, order, primary key): serialisation hints that file dumpers add by design (format, decimalChar, ...) are not part of the statement',
                    'dumped csv/json files are decoded with the stdlib only and compared by resource list, row count and provenance-id sequence (typed round-trip is C03)']
     REAL_VS_STUB = {'real': ['all dataflows code'], 'stub': ['printer: header_print/table_print callbacks and a recording wrapper around the module-global tabulate']}
-    PROBES = ['suffix-deletes-resource', 'suffix-filters-rows', 'suffix-joins', 'suffix-concatenates', 'observer-first', 'observer-last', 'empty-resource-at-observer', 'printer-with-selection', 'second-dumper-downstream'] + ['obs:' + o for o in OBS_KINDS]
+    PROBES = ['suffix-deletes-resource', 'suffix-filters-rows', 'suffix-joins', 'suffix-concatenates', 'observer-first', 'observer-last', 'empty-resource-at-observer', 'printer-with-selection', 'second-dumper-downstream', 'suffix-stops-pulling-early'] + ['obs:' + o for o in OBS_KINDS]
     TIERS = {'quick': dict(runs=900, wall=100, run_wall=120),
              'thorough': dict(runs=25000, wall=1700, run_wall=300)}
     SHRINK_FROZEN = ('fields', 'gen_stats')
@@ -186,6 +189,8 @@ class C05(Prop):
                 ctx.probe(k)
         if any(sp['step'] in ('dump_to_path', 'dump_to_zip') for sp in sc['suffix']):
             ctx.probe('second-dumper-downstream')
+        if any(sp['step'] == 'truncate' for sp in sc['suffix']):
+            ctx.probe('suffix-stops-pulling-early')
         if not sc['prefix']:
             ctx.probe('observer-first')
         if not sc['suffix']:
